@@ -17,6 +17,8 @@ entry is valid afterwards (where rebuilding is possible) and a following cached 
 import os
 import pickle
 import shutil
+import time
+import warnings
 
 from . import common, crashx
 from . import c19_core as core
@@ -203,12 +205,26 @@ def _fault_prestate(rig, entry, pre):
         raise AssertionError(pre)
 
 
+def _settle():
+    """Wait until the OS threads of finished alias proxies are really gone before forking."""
+    for _ in range(2000):
+        try:
+            if len(os.listdir("/proc/self/task")) <= 1:
+                return
+        except OSError:
+            return
+        time.sleep(0.001)
+
+
 def _fault_child(rig, entry, pre, fault, want_log=False):
     _fault_prestate(rig, entry, pre)
     side = os.path.join(rig.root, "side")
     shutil.rmtree(side, ignore_errors=True)
     os.makedirs(side)
-    pid = os.fork()
+    _settle()
+    with warnings.catch_warnings():
+        warnings.simplefilter("ignore", DeprecationWarning)
+        pid = os.fork()
     if pid == 0:
         code = 0
         try:
